@@ -576,8 +576,12 @@ class InboundStream:
                 )
                 if ordered and chunk.stream_seq == self.sequence_number:
                     self.sequence_number = uint16_add(self.sequence_number, 1)
+                # look for the start of the next message from scratch: its
+                # TSN does not need to follow the one we just delivered
                 pos = start_pos
+                start_pos = None
                 yield (chunk.stream_id, chunk.protocol, user_data)
+                continue
             else:
                 pos += 1
 
